@@ -87,7 +87,7 @@ theorem eval_readChunks_getq {ε} (now : Nat) (t : Tier) (key : Bytes) (md : Met
       (let its := presentItems now (w.get t) key md.numChunks 0
        let s := its.foldl (fun s it => hitStep md s it.data) { buf := Bytes.zeros md.length }
        if its.length != md.numChunks || s.miss then ReadOut.miss else ReadOut.value s.buf, [], w, tk) := by
-  simp only [readChunks, Prog.eval_bind, eval_askChunks_getq, Prog.eval_req, Mc.exec, put_get_self, List.append_nil]
+  simp only [readChunks, noopEnds_ok, Prog.eval_bind, eval_askChunks_getq, Prog.eval_req, Mc.exec, put_get_self, List.append_nil]
   rw [readLoop_hits]
   have hc := foldl_hit_chunk md (presentItems now (w.get t) key md.numChunks 0) { buf := Bytes.zeros md.length }
   simp only [hc.2, hc.1, Nat.zero_add, Bool.not_true, Bool.false_eq_true, if_false]
